@@ -743,6 +743,60 @@ def describe(case):
     return d
 
 
+def sequence_oracle(rng, cls):
+    """ONE simulator object serving several runs: a circuit, the same circuit object extended in place by one more
+    measurement, another circuit, the first again.  With the noise-free gate set every result must be the mapping a NEW
+    simulator returns for the same arguments (all 2^m keys, same values).  Returns (description of the sequence, failure)."""
+    import contextlib, io
+    from qgv import wiring as W
+    R = repo()
+    from quantum_gates._gates.gates import NoiseFreeGates
+    kind = {"BinaryCircuit": "binary", "Circuit": "grid", "StandardCircuit": "standard", "EfficientCircuit": "efficient",
+            "OneCircuit": "one"}[cls]
+    n = rng.randint(2, 4)
+
+    def circuit():
+        ops, labels = W.random_ops(rng, kind, n, rng.randint(3, 9))
+        body = [op for op in ops if op[0] != "measure"]
+        if kind in ("grid", "standard") and not any(op[0] in ("cx", "ecr") for op in body):
+            body.append(["cx", labels[0], labels[1]])
+        order = labels[:]
+        rng.shuffle(order)
+        meas = order[:rng.randint(1, n - 1)]              # at least one qubit stays unmeasured
+        ops = body + [["measure", q, i] for i, q in enumerate(meas)]
+        qc = W.build_qiskit(ops, max(labels) + 1, n + 1)
+        return ops, labels, meas, qc
+    opsA, labA, measA, qcA = circuit()
+    opsB, labB, measB, qcB = circuit()
+    nl = max(max(labA), max(labB)) + 1
+    dp = W.tagged_params(nl - 1)
+    dp.update(T1=np.ones(nl), T2=np.ones(nl), dt=[1e-9])
+    psi0 = np.eye(1, 2 ** n)[0].astype(complex)
+    sim = R.Sim(gates=NoiseFreeGates(), CircuitClass=R.classes[cls], parallel=False)
+
+    def run(s, qc, nlab):
+        with contextlib.redirect_stdout(io.StringIO()):
+            return s.run(t_qiskit_circ=qc, qubits_layout=list(range(nlab)), psi0=psi0, shots=1, device_param=dp, nqubit=n)
+    steps = [("first circuit", qcA, max(labA) + 1, len(measA)), ("second circuit", qcB, max(labB) + 1, len(measB)),
+             ("first circuit again", qcA, max(labA) + 1, len(measA))]
+    extra = [q for q in labA if q not in measA][0]
+    desc = {"cls": cls, "n": n, "opsA": opsA, "opsB": opsB, "extra_measure": [extra, len(measA)]}
+    for k, (tag, qc, nlab, m) in enumerate(steps + [("the first circuit OBJECT after one more measurement was appended to it", qcA, max(labA) + 1, len(measA) + 1)]):
+        if k == 3:
+            qcA.measure(extra, len(measA))
+        try:
+            got = run(sim, qc, nlab)
+            want = run(R.Sim(gates=NoiseFreeGates(), CircuitClass=R.classes[cls], parallel=False), qc, nlab)
+        except Exception as e:                  # noqa
+            return desc, f"run #{k + 1} ({tag}) raised {type(e).__name__}: {str(e)[:120]}"
+        keys = {format(i, f"0{m}b") for i in range(2 ** m)}
+        if set(got) != keys:
+            return desc, f"run #{k + 1} on one simulator object ({tag}): keys are not the 2^{m} bit strings: {sorted(got)[:6]}"
+        if set(want) != set(got) or any(abs(float(got[x]) - float(want[x])) > 1e-12 for x in got):
+            return desc, f"run #{k + 1} on one simulator object ({tag}) differs from a new simulator's result for the same arguments"
+    return desc, None
+
+
 def main(ctx):
     lean = ctx.lean("QG.Props.C14")
     rng = ctx.rng
@@ -897,6 +951,16 @@ def main(ctx):
         ctx.sample({"case": describe(cases[i]), "real": r["exc"] or {k: float(v) for k, v in r["result"].items()},
                     "oracle_category": verdicts[i][0]})
 
+    # ---- one simulator object, several runs
+    seq_fail = []
+    for cls in CLASSES:
+        for _ in range(6 if th else 2):
+            desc, bad = sequence_oracle(rng, cls); ctx.count()
+            if bad:
+                seq_fail.append((desc, bad))
+    ctx.coverage["simulator_reuse_sequences"] = (6 if th else 2) * len(CLASSES)
+    for desc, bad in seq_fail[:1]:
+        ctx.violation({"kind": "simulator-reuse", "cls": desc["cls"]}, {"sequence": desc, "failure": bad}, f"{desc['cls']}: {bad}")
     # ---- decide
     fails = [(i, verdicts[i]) for i in range(len(cases)) if verdicts[i][1]]
     seen_sig = set()
